@@ -444,4 +444,7 @@ class ProgressBar(object):
         return self._max
 
     def _formatter_percent(self):
+        if self._max:
+            return int(self._step * 100 // self._max)
+
         return int(math.floor(self._percent * 100))
